@@ -192,7 +192,7 @@ Definition group_name (nm : str) : bool :=
 
 Section Meaning.
   Variable strftime_ok : str -> bool.
-  Variable time_str : str -> tz -> option str.
+  Variable time_str : str -> tz -> str.
   Variable e : env.
 
   Definition leaf_value (nm : str) : str :=
@@ -224,7 +224,7 @@ Section Meaning.
                 | [_; [ALit z]] => if str_eqb z (LIT "utc") then Utc else Local
                 | _ => Local
                 end in
-    opt_or (time_str fmt zone) [].
+    time_str fmt zone.
 
   Definition mdc_value (args : list (list ast)) : str :=
     match args with
@@ -254,10 +254,8 @@ Section Meaning.
 
   (* ---------- semantic well-formedness: known formatter, right arguments ---------- *)
 
-  (* the format is accepted by chrono's parser and both zones render it *)
-  Definition fmt_ok (f : str) : bool :=
-    strftime_ok f &&
-    match time_str f Utc, time_str f Local with Some _, Some _ => true | _, _ => false end.
+  (* the format is accepted by chrono (parses and renders) *)
+  Definition fmt_ok (f : str) : bool := strftime_ok f.
 
   Definition date_args_ok (args : list (list ast)) : bool :=
     match args with
